@@ -29,6 +29,55 @@ type chain struct {
 	qs  ctypes.QueryServer
 
 	queries int
+
+	gmu   sync.Mutex
+	gates map[string]*gate // owner/serial -> gate holding the Certificates query for that certificate id
+}
+
+// gate holds every Certificates query for one certificate id until released, and tells how many have arrived:
+// the scheduling gate that lets the harness keep a handshake inside VerifyPeerCertificate while others are started.
+type gate struct {
+	mu       sync.Mutex
+	arrived  int
+	signal   chan struct{} // closed and replaced on every arrival
+	released chan struct{}
+}
+
+func (c *chain) hold(owner, serial string) *gate {
+	g := &gate{signal: make(chan struct{}), released: make(chan struct{})}
+	c.gmu.Lock()
+	if c.gates == nil {
+		c.gates = map[string]*gate{}
+	}
+	c.gates[owner+"/"+serial] = g
+	c.gmu.Unlock()
+	return g
+}
+
+func (c *chain) unhold(owner, serial string, g *gate) {
+	c.gmu.Lock()
+	delete(c.gates, owner+"/"+serial)
+	c.gmu.Unlock()
+	close(g.released)
+}
+
+// waitArrived blocks until n queries wait at the gate; false if that has not happened within d.
+func (g *gate) waitArrived(n int, d time.Duration) bool {
+	t := time.NewTimer(d)
+	defer t.Stop()
+	for {
+		g.mu.Lock()
+		a, sig := g.arrived, g.signal
+		g.mu.Unlock()
+		if a >= n {
+			return true
+		}
+		select {
+		case <-sig:
+		case <-t.C:
+			return false
+		}
+	}
 }
 
 func newChain() (*chain, error) {
@@ -69,6 +118,17 @@ func (c *chain) Revoke(owner sdk.AccAddress, serial string) error {
 
 // Certificates implements ctypes.QueryClient on top of the real querier.
 func (c *chain) Certificates(_ context.Context, in *ctypes.QueryCertificatesRequest, _ ...grpc.CallOption) (*ctypes.QueryCertificatesResponse, error) {
+	c.gmu.Lock()
+	g := c.gates[in.Filter.Owner+"/"+in.Filter.Serial]
+	c.gmu.Unlock()
+	if g != nil {
+		g.mu.Lock()
+		g.arrived++
+		close(g.signal)
+		g.signal = make(chan struct{})
+		g.mu.Unlock()
+		<-g.released
+	}
 	c.mu.Lock()
 	defer c.mu.Unlock()
 	c.queries++
